@@ -3,7 +3,7 @@ sequences of ANY length with loop invariants; rule application (PartialParse.app
 import ast
 import z3
 
-from pyvc.values import SymSeq, SymElem, PairSeq, Unsupported, Obj, Tok, Builtin
+from pyvc.values import SymSeq, SymElem, PairSeq, Unsupported, Obj, Tok, Builtin, UTerm
 from pyvc.logic import And, Or, Not, Implies
 from contracts.extra import FuncUnit
 
@@ -120,5 +120,257 @@ def match_rule_unit(world):
     return u
 
 
+def lt_unit(world):
+    """PartialParse.__lt__: candidates are ordered by covered length first, score second"""
+    def mk(tag):
+        o = Obj(world.classes["PartialParse"], fresh=False, label=tag)
+        o.attrs.update({"max_covered_chars": z3.Int(tag + ".covered"), "score": z3.Real(tag + ".score"),
+                        "prod": (), "rules": ()})
+        return o
+
+    def setup(it, w):
+        return [mk("a"), mk("b")]
+
+    def call(it, w, a):
+        return it.truthy(it.order("<", a[0], a[1]))
+
+    def ens(it, w, a, r):
+        ca, cb = a[0].attrs["max_covered_chars"], a[1].attrs["max_covered_chars"]
+        sa, sb = a[0].attrs["score"], a[1].attrs["score"]
+        want = z3.Or(ca < cb, z3.And(ca == cb, sa < sb))
+        return [("ordered-by-coverage-then-score", ["C15", "C20", "C14", "C09"], r == want if z3.is_expr(r) else (z3.BoolVal(r) == want))]
+    return FuncUnit("partial_parse.PartialParse.__lt__", ["partial_parse.PartialParse.__lt__"], ["C15", "C20", "C14", "C09", "C12"],
+                    setup, call, ens, prop_map={"safety": ["C15"], "frame": ["C12"]})
+
+
+def apply_rule_units(world):
+    """PartialParse.apply_rule on productions of length 1..3 and every window (bounded in the
+    length; the function has no loop): the rule gets (ts, *window), the result splices its value in"""
+    out = []
+
+    def mk(n, a_, b_, returns_none):
+        def setup(it, w):
+            items = []
+            for i in range(n):
+                o = Obj(w.classes["Time"], fresh=False, label="x%d" % i)
+                o.attrs.update({"mstart": z3.Int("x%d.mstart" % i), "mend": z3.Int("x%d.mend" % i)})
+                items.append(o)
+            pp = Obj(w.classes["PartialParse"], fresh=False, label="self")
+            pp.attrs.update({"prod": tuple(items), "rules": (100, "ruleA"), "applicable_rules": Tok("applicable"),
+                             "max_covered_chars": z3.Int("cov"), "score": z3.Real("score")})
+            return [pp, items, {}]
+
+        def call(it, w, a):
+            pp, items, seen = a
+            res = None
+            if not returns_none:
+                res = Obj(w.classes["Time"], fresh=True, label="r")
+                res.attrs.update({"mstart": z3.Int("r.mstart"), "mend": z3.Int("r.mend")})
+            seen["res"] = res
+
+            def rule(it2, args, k):
+                seen["args"] = list(args)
+                return res
+            ts = Tok("ts")
+            seen["ts"] = ts
+            return it.call(it.getattr_(pp, "apply_rule"), [ts, Builtin("rule", rule), "ruleB", (a_, b_)], {})
+
+        def ens(it, w, a, r):
+            pp, items, seen = a
+            got = seen.get("args")
+            fwd = got is not None and len(got) == 1 + (b_ - a_) and got[0] is seen["ts"] and all(x is y for x, y in zip(got[1:], items[a_:b_]))
+            cl = [("rule-gets-the-reference-time-and-exactly-the-window", ["C15", "C03"], bool(fwd))]
+            if returns_none:
+                cl.append(("none-iff-production-none", ["C15", "C01"], r is None))
+                return cl
+            ok = isinstance(r, Obj) and r.cls.name == "PartialParse" and r is not pp
+            want = tuple(items[:a_]) + (seen["res"],) + tuple(items[b_:])
+            cl.append(("none-iff-production-none", ["C15", "C01"], ok))
+            if ok:
+                p2 = r.attrs.get("prod")
+                cl.append(("result-replaces-the-window-by-the-value", ["C15"],
+                           isinstance(p2, tuple) and len(p2) == len(want) and all(x is y for x, y in zip(p2, want))))
+                cl.append(("trace-extended-by-the-rule-name", ["C15"], r.attrs.get("rules") == (100, "ruleA", "ruleB")))
+                cl.append(("applicable-rules-inherited", ["C15"], r.attrs.get("applicable_rules") is pp.attrs["applicable_rules"]))
+                cl.append(("covered-length-of-the-new-production", ["C15", "C09"],
+                           r.attrs.get("max_covered_chars") == want[-1].attrs["mend"] - want[0].attrs["mstart"]))
+                cl.append(("receiver-unchanged", ["C15", "C12"], pp.attrs["prod"] == tuple(items) and pp.attrs["rules"] == (100, "ruleA")))
+            return cl
+        return FuncUnit("partial_parse.PartialParse.apply_rule[n=%d,window=%d:%d,%s]" % (n, a_, b_, "None" if returns_none else "value"),
+                        ["partial_parse.PartialParse.apply_rule", "partial_parse.PartialParse.__init__"],
+                        ["C15", "C12", "C03", "C09", "C01"], setup, call, ens, prop_map={"safety": ["C15", "C01"], "frame": ["C12", "C15"]})
+    for n in (1, 2, 3):
+        for a_ in range(n):
+            for b_ in range(a_ + 1, n + 1):
+                out.append(mk(n, a_, b_, False))
+    out.append(mk(2, 0, 1, True))
+    return out
+
+
+def regex_stack_units(world):
+    """_regex_stack: all maximal gap-free sequences, each once.  BOUNDED in the number of matches
+    (n <= 4) with a fully symbolic adjacency relation; for n = 2 the real nested get_m_dist is executed
+    (overlap test + 'gap is white space only')"""
+    import itertools
+    out = []
+
+    def mk(n, real_dist):
+        def setup(it, w):
+            ms = []
+            for i in range(n):
+                o = Obj(w.classes["RegexMatch"], fresh=False, label="m%d" % i)
+                o.attrs.update({"mstart": z3.Int("m%d.mstart" % i), "mend": z3.Int("m%d.mend" % i), "id": 100 + i})
+                it.assume(z3.And(o.attrs["mstart"] >= 0, o.attrs["mstart"] < o.attrs["mend"]))
+                ms.append(o)
+            for x, y in zip(ms, ms[1:]):      # sorted by (mstart, mend) as _match_regex returns them
+                it.assume(z3.Or(x.attrs["mstart"] < y.attrs["mstart"],
+                                z3.And(x.attrs["mstart"] == y.attrs["mstart"], x.attrs["mend"] <= y.attrs["mend"])))
+            return [ms, {"iters": 0, "adj": {}}]
+
+        def call(it, w, a):
+            ms, seen = a
+            txt = UTerm("input", ["txt"], "str")
+            seen["txt"] = txt
+            if not real_dist:
+                it.contracts = dict(it.contracts)
+
+                def dist(it2, f2, args, k):
+                    i, j = ms.index(args[0]), ms.index(args[1])
+                    b = z3.Bool("adj_%d_%d" % (i, j))
+                    seen["adj"][(i, j)] = b
+                    return z3.If(b, 1, 0)
+                it.contracts["ctparse._regex_stack.get_m_dist"] = dist
+
+            def tick(it2, args, k):
+                seen["iters"] += 1
+                return None
+            return it.call(w.func("ctparse._regex_stack"), [txt, ms, Builtin("on_do_iter", tick)], {})
+
+        def ens(it, w, a, r):
+            ms, seen = a
+            if real_dist:
+                # adjacency as the property defines it: no overlap and only white space in between
+                gap = UTerm("slice", [seen["txt"], ms[0].attrs["mend"], ms[1].attrs["mstart"], None], "str")
+                # the term the code must have tested: <compiled \s*>.fullmatch(gap)
+                cand = [t for t in getattr(it, "truthy_terms", [])]
+                adj = {(0, 1): None}
+            def A(i, j):
+                if real_dist:
+                    return seen["adj_real"]
+                return seen["adj"].get((i, j), z3.Bool("adj_%d_%d" % (i, j)))
+            ok = isinstance(r, list) and all(isinstance(t, tuple) for t in r)
+            if not ok:
+                return [("returns-sequences", ["C15"], False)]
+            idx = [tuple(ms.index(x) for x in t) for t in r]
+            cl = [("each-sequence-once", ["C15"], len(set(idx)) == len(idx))]
+            goals = []
+            if not real_dist:
+                for k in range(1, n + 1):
+                    for t in itertools.combinations(range(n), k):
+                        path = z3.And(*[A(t[i], t[i + 1]) for i in range(len(t) - 1)]) if len(t) > 1 else z3.BoolVal(True)
+                        first = z3.And(*[z3.Not(A(p, t[0])) for p in range(t[0])]) if t[0] > 0 else z3.BoolVal(True)
+                        last = z3.And(*[z3.Not(A(t[-1], q)) for q in range(t[-1] + 1, n)]) if t[-1] < n - 1 else z3.BoolVal(True)
+                        want = z3.And(path, first, last)
+                        goals.append(want if t in idx else z3.Not(want))
+                cl.append(("exactly-the-maximal-gap-free-sequences", ["C15"], z3.And(*goals)))
+                cl.append(("deadline-callback-once-per-expansion", ["C13"], seen["iters"] >= len(idx)))
+            return cl
+        u = FuncUnit("ctparse._regex_stack[n=%d%s]" % (n, ",real get_m_dist" if real_dist else ""), ["ctparse._regex_stack"],
+                     ["C15", "C13", "C12"], setup, call, ens, prop_map={"safety": ["C15", "C01"], "frame": ["C12"]})
+        u.bounded_desc = "the while loop over the explicit stack is unrolled for exactly %d pattern matches; the adjacency relation is fully symbolic" % n
+        return u
+    for n in (0, 1, 2, 3, 4):
+        out.append(mk(n, False))
+    return out
+
+
+class GapUnit:
+    """get_m_dist (nested in _regex_stack): 'no relevant gap' means no overlap and only white space
+    between the two matches.  Executed on two symbolic matches over abstract text; the separator
+    pattern's language is compared with 'any run of white space' (RegLan equivalence)."""
+    kind = "gap"
+    name = "ctparse._regex_stack.get_m_dist"
+    props = {"C15"}
+    cost = 1
+
+    def sha(self, world):
+        return world.sha(world.func("ctparse._regex_stack"))
+
+    def run(self, world, prop, tier):
+        from pyvc.vcgen import Obligation, explore
+        from pyvc.regexmodel import PatternModel, WS_CHARS
+        obs = []
+
+        def ob(clause, ok, detail="", kindc=None):
+            o = Obligation(self.name, clause, ["C15"])
+            o.kind = "gap"
+            o.paths = o.queries = 1
+            o.backend["z3"] += 1
+            if not ok:
+                o.status, o.detail = "failed", detail
+                o.cex = {"args": {"kind": "gap"}}
+            obs.append(o)
+        f = world.func("ctparse._regex_stack")
+        m0 = Obj(world.classes["RegexMatch"], fresh=False, label="m0")
+        m1 = Obj(world.classes["RegexMatch"], fresh=False, label="m1")
+        for i, o in enumerate((m0, m1)):
+            o.attrs.update({"mstart": z3.Int("m%d.mstart" % i), "mend": z3.Int("m%d.mend" % i), "id": 100 + i})
+        txt = UTerm("input", ["txt"], "str")
+
+        def setup(it):
+            it.assume(z3.And(m0.attrs["mstart"] >= 0, m0.attrs["mstart"] < m0.attrs["mend"], m1.attrs["mstart"] < m1.attrs["mend"],
+                             m0.attrs["mstart"] <= m1.attrs["mstart"]))
+            return [txt, [m0, m1]]
+        res, stats = explore(world, setup, lambda it, a: it.call(f, a, {}))
+        # classify the paths: which condition leads to one joint sequence
+        joint, split = [], []
+        for r in res:
+            if r.kind != "return":
+                ob("total", False, "%s: %s" % (r.kind, r.value))
+                return obs, {"paths": stats["paths"]}
+            extra = r.it.pc[r.it.n_setup_pc:]
+            (joint if len(r.value) == 1 and len(r.value[0]) == 2 else split).append(z3.And(*extra) if extra else z3.BoolVal(True))
+        tv = [d for d in set(str(x) for c in joint + split for x in _bools(c)) if d.startswith("truthy!")]
+        ob("one-white-space-test-decides", len(tv) == 1, "expected exactly one uninterpreted test (the separator match), found %s" % tv)
+        if len(tv) == 1:
+            B = z3.Bool(tv[0])
+            want = z3.And(m1.attrs["mstart"] >= m0.attrs["mend"], B)
+            s = z3.Solver()
+            s.add(z3.And(m0.attrs["mstart"] >= 0, m0.attrs["mstart"] < m0.attrs["mend"], m1.attrs["mstart"] < m1.attrs["mend"],
+                         m0.attrs["mstart"] <= m1.attrs["mstart"]))
+            s.add(z3.Or(*joint) != want if joint else want)
+            ob("adjacent-iff-no-overlap-and-separator-matches-the-gap", s.check() == z3.unsat,
+               "two matches are put in one sequence under a different condition than 'm2.mstart >= m1.mend and the separator matches the text between them'")
+        # the separator constant: fullmatch of a pattern whose language is 'any run of white space'
+        import ast
+        pats = [n for n in ast.walk(f.node) if isinstance(n, ast.Call) and isinstance(n.func, ast.Attribute) and n.func.attr == "compile"
+                and n.args and isinstance(n.args[0], ast.Constant)]
+        uses_full = any(isinstance(n, ast.Call) and isinstance(n.func, ast.Attribute) and n.func.attr == "fullmatch" for n in ast.walk(f.node))
+        okp = False
+        detail = "no separator pattern constant / fullmatch call found"
+        if len(pats) == 1 and uses_full:
+            try:
+                L = PatternModel(0, pats[0].args[0].value, {}, ignorecase=False).reglan()
+                ws = z3.Star(z3.Union(*[z3.Re(z3.StringVal(c)) for c in WS_CHARS]))
+                w = z3.String("w")
+                s = z3.Solver()
+                s.add(z3.InRe(w, L) != z3.InRe(w, ws))
+                okp = s.check() == z3.unsat
+                detail = "separator pattern %r does not denote 'any run of white space'" % pats[0].args[0].value
+            except Exception as e:
+                detail = str(e)
+        ob("gap-may-be-any-run-of-white-space", okp, detail)
+        return obs, {"paths": stats["paths"], "assumptions": ["the separator test is the truth value of <pattern>.fullmatch(txt[m1.mend:m2.mstart]) (A-regex)"]}
+
+
+def _bools(e):
+    out = []
+    if z3.is_const(e) and z3.is_bool(e) and e.decl().kind() == z3.Z3_OP_UNINTERPRETED:
+        out.append(e)
+    for c in e.children():
+        out.extend(_bools(c))
+    return out
+
+
 def units(world):
-    return [match_rule_unit(world)]
+    return [match_rule_unit(world), lt_unit(world), GapUnit()] + apply_rule_units(world) + regex_stack_units(world)
